@@ -72,7 +72,7 @@ RECURSIVE QSeq(_, _)
 QSeq(s, i) == IF i > NQ THEN <<>> ELSE <<[name |-> QName(i), parent |-> s.par[QName(i)]]>> \o QSeq(s, i + 1)
 Export(s) == [fam |-> s.fam, queues |-> QSeq(s, 1), jobq |-> s.jobq, pgmin |-> s.pgmin, subs |-> s.subs,
               labels |-> s.labels, frac |-> s.frac, mem |-> s.mem, dev |-> s.dev, gpu |-> s.gpu,
-              node |-> s.node, pin |-> s.pin, press |-> s.press, run |-> s.run, sig |-> Sig(s),
+              node |-> s.node, pin |-> s.pin, press |-> s.press, run |-> s.run, sit |-> s.sit, sig |-> Sig(s),
               hang |-> IF WalkHangs(LiveAsIs(AllQ(s), FullPar(s)), FullPar(s), s.jobq) THEN 1 ELSE 0]
 Emit == PrintT(ToJson(Export(scn)))
 GenNext == FALSE /\ UNCHANGED tvars
